@@ -210,5 +210,11 @@ func GenJSONMap(t *rapid.T, label string, depth, min int) map[string]any {
 		).Draw(t, fmt.Sprintf("%s.k%d", label, i))
 		m[k] = GenJSONValue(t, fmt.Sprintf("%s.%s", label, k), depth)
 	}
+	// an extension named like a typed attribute or like a legacy token, with a value of that attribute's
+	// kind: extensions are data, they must never be read back into the typed fields
+	if rapid.IntRange(0, 3).Draw(t, label+"Alias") == 0 {
+		k := rapid.SampledFrom([]string{"HardKey", "hardKey", "hardkey", "Touch2SSH", "touch2SSH", "IsFirefighter", "isFirefighter", "TouchlessSudoHosts", "TouchlessSudoTime", "touchlessSudo", "IFVer", "ifVer", "SSHClientVersion", "username", "hostname", "req"}).Draw(t, label+"AliasK")
+		m[k] = rapid.SampledFrom([]any{"true", true, "1", "30", float64(30), "host01,host02", "user@host", "T"}).Draw(t, label+"AliasV")
+	}
 	return m
 }
